@@ -216,6 +216,144 @@ def broadcast_assigned(init_tree):
     raise NotRecognised("use of nt._replace(...) not recognised")
 
 
+def _stored_names(nodes):
+    out = set()
+    for st in nodes:
+        for n in ast.walk(st):
+            if isinstance(n, ast.Name) and isinstance(n.ctx, (ast.Store, ast.Del)):
+                out.add(n.id)
+    return out
+
+
+def _flow_fresh(stmts, fresh, local_names, at):
+    """Definite-assignment-in-THIS-iteration analysis over a loop body. `fresh` = the names that, on every path
+    reaching this point, were bound during the current iteration from values of the current iteration (or from
+    names the function never binds). Records the set on entry of every statement in `at[id(stmt)]`. Returns the
+    set after the block, or None when the end of the block is unreachable (continue / break / return / raise)."""
+    def ok_expr(e, fr):
+        return all(n.id in fr or n.id not in local_names
+                   for n in ast.walk(e) if isinstance(n, ast.Name) and isinstance(n.ctx, ast.Load))
+
+    def meet(sets):
+        sets = [x for x in sets if x is not None]
+        if not sets:
+            return None
+        out = set(sets[0])
+        for x in sets[1:]:
+            out &= x
+        return out
+
+    def bind(target, good, fr):
+        for n in ast.walk(target):
+            if isinstance(n, ast.Name) and isinstance(n.ctx, ast.Store):
+                (fr.add if good else fr.discard)(n.id)
+
+    fresh = set(fresh)
+    for st in stmts:
+        at[id(st)] = set(fresh)
+        if isinstance(st, ast.Assign):
+            good = ok_expr(st.value, fresh)
+            for t in st.targets:
+                bind(t, good, fresh)
+        elif isinstance(st, ast.AnnAssign):
+            if st.value is not None:
+                bind(st.target, ok_expr(st.value, fresh), fresh)
+        elif isinstance(st, ast.AugAssign):
+            good = ok_expr(st.value, fresh) and all(
+                n.id in fresh for n in ast.walk(st.target) if isinstance(n, ast.Name))
+            bind(st.target, good, fresh)
+        elif isinstance(st, ast.If):
+            a = _flow_fresh(st.body, fresh, local_names, at)
+            b = _flow_fresh(st.orelse, fresh, local_names, at)
+            fresh = meet([a, b])
+        elif isinstance(st, ast.Try):
+            entry = set(fresh)
+            b = _flow_fresh(st.body, entry, local_names, at)
+            outs = []
+            for h in st.handlers:
+                # the handler may be entered from any point of the body: only what was fresh BEFORE the try counts
+                hs = set(entry) - (_stored_names(st.body) - entry)
+                if h.name:
+                    hs.add(h.name)
+                outs.append(_flow_fresh(h.body, hs, local_names, at))
+            outs.append(_flow_fresh(st.orelse, b, local_names, at) if b is not None else None)
+            fresh = meet(outs)
+            if st.finalbody and fresh is not None:
+                fresh = _flow_fresh(st.finalbody, fresh, local_names, at)
+        elif isinstance(st, (ast.For, ast.While)):
+            # fixpoint: what is fresh at the head of the nested loop on the first AND on every later round
+            head = set(fresh)
+            while True:
+                inner = set(head)
+                if isinstance(st, ast.For):
+                    bind(st.target, ok_expr(st.iter, head), inner)
+                out = _flow_fresh(st.body, inner, local_names, at)
+                nxt = meet([head, out])
+                if nxt == head:
+                    break
+                head = nxt
+            fresh = head
+            if st.orelse:
+                fresh = _flow_fresh(st.orelse, fresh, local_names, at)
+        elif isinstance(st, ast.With):
+            for it in st.items:
+                if it.optional_vars is not None:
+                    bind(it.optional_vars, ok_expr(it.context_expr, fresh), fresh)
+            fresh = _flow_fresh(st.body, fresh, local_names, at)
+        elif isinstance(st, (ast.Continue, ast.Break, ast.Return, ast.Raise)):
+            return None
+        if fresh is None:
+            return None
+    return fresh
+
+
+def broadcast_fresh(init_tree):
+    """net_if_addrs(): on every path that reaches a `<record>._replace(broadcast=V)`, was everything V reads bound in
+    the SAME iteration of the (innermost) record loop the call sits in? False when a path exists on which a name
+    still holds what an earlier iteration (or an earlier loop) left there."""
+    fn = extract.find_def(init_tree, "net_if_addrs")
+    local_names = _stored_names(fn.body) | {a.arg for a in fn.args.args}
+    calls = [n for n in ast.walk(fn)
+             if isinstance(n, ast.Call) and isinstance(n.func, ast.Attribute) and n.func.attr == "_replace"
+             and any(k.arg == "broadcast" for k in n.keywords)]
+    if not calls:
+        raise NotRecognised("no <record>._replace(broadcast=...) in net_if_addrs")
+
+    def innermost_loop(call):
+        best = None
+        for n in ast.walk(fn):
+            if isinstance(n, ast.For) and any(x is call for b in n.body for x in ast.walk(b)):
+                if best is None or any(x is n for x in ast.walk(best)):
+                    best = n
+        return best
+
+    verdict = True
+    for call in calls:
+        loop = innermost_loop(call)
+        if loop is None:
+            raise NotRecognised("_replace(broadcast=...) outside any record loop")
+        at = {}
+        start = set()
+        for n in ast.walk(loop.target):
+            if isinstance(n, ast.Name):
+                start.add(n.id)
+        _flow_fresh(loop.body, start, local_names, at)
+        holder = None
+        for st in ast.walk(loop):
+            if isinstance(st, ast.stmt) and not hasattr(st, "body") and id(st) in at \
+                    and any(x is call for x in ast.walk(st)):
+                holder = st
+        if holder is None:
+            raise NotRecognised("statement holding _replace(broadcast=...) not reached by the flow analysis")
+        fr = at[id(holder)]
+        for k in call.keywords:
+            if k.arg == "broadcast":
+                for n in ast.walk(k.value):
+                    if isinstance(n, ast.Name) and n.id in local_names and n.id not in fr:
+                        verdict = False
+    return verdict
+
+
 def sunos_pid0_named(tree):
     """`_pssunos.Process._proc_basic_info`: the AccessDenied raised for an unreadable PID 0 carries the cached name"""
     fn = extract.find_def(tree, "_proc_basic_info", cls="Process")
